@@ -112,6 +112,15 @@ theorem C08_pushBackUnique_refuses_cycle (m : M) (id : Nat) (v : Val)
   unfold bop_pushbackunique
   simp only [hnew, Bool.false_eq_true, if_false, hc, if_true, pure']
 
+/-- `set` of something that reaches the array is refused wherever the index points — inside the array, at its end or
+beyond it: a diagnostic, and the array keeps its elements and its size (it does not grow) -/
+theorem C08_set_refuses_cycle (m : M) (id p : Nat) (d : Dec) (v : Val) (hp : m.arr p = [.num d, v])
+    (hpos : ¬ truncInt d < 0) (hmax : ¬ (truncInt d).toNat ≥ maxArraySize) (hc : wouldCycle m id v = true) :
+    bop_set (.ref id) (.ref p) m = some (m.log Diag.runtime_ArrayRecursion, [], .nil) := by
+  unfold bop_set
+  simp only [truncInt] at hpos hmax ⊢
+  simp [hp, nth, hpos, hmax, hc, pure', intOfVal]
+
 /-- a refused insertion leaves every array exactly as it was -/
 theorem C08_refused_heap_unchanged (m : M) (code : Nat) : (m.log code).heap = m.heap := by
   unfold M.log; simp only; split <;> rfl
@@ -268,7 +277,7 @@ theorem C08_append_acyclic (m : M) (id j : Nat) (res : OpRes) (ha : Acyclic m.he
     · have hall := List.any_eq_false.mp (by simpa using hc) x hx
       exact Or.inr (Or.inl (by simpa using hall))
 
-/-- **set never closes a cycle** (neither the accepted store nor the growth that stays after a refusal) -/
+/-- **set never closes a cycle** -/
 theorem C08_set_acyclic (m : M) (id p : Nat) (res : OpRes) (ha : Acyclic m.heap m.maps)
     (hr : bop_set (.ref id) (.ref p) m = some res) : Acyclic res.1.heap res.1.maps := by
   unfold bop_set at hr
@@ -294,11 +303,11 @@ theorem C08_set_acyclic (m : M) (id p : Nat) (res : OpRes) (ha : Acyclic m.heap 
         · have : res = (m.log Diag.runtime_IndexOutOfRange, [], .nil) := by simpa using hr.symm
           subst this; simp only [log_heap, log_maps]; exact ha
         · split at hr
-          · have e : res = ((m.setArr id (if (m.arr id).length ≤ idx.toNat then m.arr id ++ List.replicate (idx.toNat + 1 - (m.arr id).length) Val.nil else m.arr id)).log Diag.runtime_ArrayRecursion, [], .nil) := by
+          · have e : res = (m.log Diag.runtime_ArrayRecursion, [], .nil) := by
               simpa using hr.symm
             subst e
             simp only [log_heap, log_maps]
-            exact acyclic_setArr m id _ ha (grown _)
+            exact ha
           · next hc =>
             have e : res = (m.setArr id ((if (m.arr id).length ≤ idx.toNat then m.arr id ++ List.replicate (idx.toNat + 1 - (m.arr id).length) Val.nil else m.arr id).set idx.toNat (nth (m.arr p) 1)), [], .nil) := by
               simpa using hr.symm
